@@ -208,33 +208,33 @@ func Load(path string) (*Graph, error) {
 }
 
 type Mismatch struct {
-	Kind    string   `json:"kind"` // result | resp | state | init
-	Event   M        `json:"event"`
-	SpecOK  bool     `json:"spec_ok"`
-	ImplOK  bool     `json:"impl_ok"`
-	Failed  []string `json:"failed_guards,omitempty"`
-	ImplErr string   `json:"impl_err,omitempty"`
-	Fields  []string `json:"fields,omitempty"`
-	Detail  M        `json:"detail,omitempty"`
-	SpecResp M       `json:"spec_resp,omitempty"`
-	Path    []M      `json:"path"` // events from the initial state to the source state of the edge
-	AfterImport bool `json:"after_import,omitempty"` // the edge was executed on the chain re-imported from genesis one step earlier
-	Diverged bool    `json:"diverged,omitempty"` // recorded below an edge whose post-state already differed (only acceptances the specification forbids are recorded there)
+	Kind        string   `json:"kind"` // result | resp | state | init
+	Event       M        `json:"event"`
+	SpecOK      bool     `json:"spec_ok"`
+	ImplOK      bool     `json:"impl_ok"`
+	Failed      []string `json:"failed_guards,omitempty"`
+	ImplErr     string   `json:"impl_err,omitempty"`
+	Fields      []string `json:"fields,omitempty"`
+	Detail      M        `json:"detail,omitempty"`
+	SpecResp    M        `json:"spec_resp,omitempty"`
+	Path        []M      `json:"path"`                   // events from the initial state to the source state of the edge
+	AfterImport bool     `json:"after_import,omitempty"` // the edge was executed on the chain re-imported from genesis one step earlier
+	Diverged    bool     `json:"diverged,omitempty"`     // recorded below an edge whose post-state already differed (only acceptances the specification forbids are recorded there)
 }
 
 type Report struct {
-	States       int        `json:"states"`
-	Edges        int        `json:"edges"`
-	EdgesOK      int        `json:"edges_ok"`
-	Replayed     int        `json:"replayed"`
-	Unreached    int        `json:"unreached_states"`
-	Skipped      int        `json:"skipped_subtrees"`
-	ByType       map[string]int `json:"by_type"`
-	Mismatches   []Mismatch `json:"mismatches"`
-	NMismatch    int        `json:"n_mismatch"`
-	Samples      []M        `json:"samples"`
-	Findings     map[string]int `json:"findings"`        // signature -> number of conforming edges on which the implementation reports it
-	FindingSample map[string]M  `json:"finding_samples"`
+	States        int            `json:"states"`
+	Edges         int            `json:"edges"`
+	EdgesOK       int            `json:"edges_ok"`
+	Replayed      int            `json:"replayed"`
+	Unreached     int            `json:"unreached_states"`
+	Skipped       int            `json:"skipped_subtrees"`
+	ByType        map[string]int `json:"by_type"`
+	Mismatches    []Mismatch     `json:"mismatches"`
+	NMismatch     int            `json:"n_mismatch"`
+	Samples       []M            `json:"samples"`
+	Findings      map[string]int `json:"findings"` // signature -> number of conforming edges on which the implementation reports it
+	FindingSample map[string]M   `json:"finding_samples"`
 }
 
 // Walk replays every edge reachable from the state a fresh implementation projects to.  The
